@@ -56,9 +56,19 @@ func corpus(out *lib.Out) {
 	for i, tc := range lib.TravWitnesses() {
 		runCase(out, fmt.Sprintf("k%d", i), tc)
 	}
+	// one compiled fields clause (3 fields) as first member of two unions formed at different depths: the interest
+	// list handed to the walk must not alias the clause (k/g1 is visited after k/a/l/g2)
+	F3 := lib.SelFields(lib.Entry{K: "a", V: E()}, lib.Entry{K: "b", V: E()}, lib.Entry{K: "c", V: E()})
+	sharedSel := lib.SelRec(none, lib.SelUnion(A(F3), lib.SelFields(
+		lib.Entry{K: "k", V: lib.SelFields(lib.Entry{K: "g1", V: M()})},
+		lib.Entry{K: "l", V: lib.SelFields(lib.Entry{K: "g2", V: M()})})), "")
+	sharedData := lib.Map(lib.Entry{K: "k", V: lib.Map(
+		lib.Entry{K: "a", V: lib.Map(lib.Entry{K: "l", V: lib.Map(lib.Entry{K: "g2", V: lib.Str("under-l")})})},
+		lib.Entry{K: "g1", V: lib.Str("under-k")})})
 	cases := []struct {
 		sel, root *lib.Val
 	}{
+		{sharedSel, sharedData},
 		{lib.SelRec(3, A(E()), ""), deep},
 		// neighbours that must be fine
 		{lib.SelUnion(lib.SelIndex(1, M()), lib.SelRange(2, 3, M())), ints(10, 11, 12)},
@@ -123,6 +133,13 @@ func main() {
 	corpus(out)
 	for i := 0; i < n; i++ {
 		for {
+			if rng.Chance(8) { // one compiled fields clause shared by unions formed at different depths
+				tc := lib.GenSharedClauseCase(rng)
+				if runCase(out, fmt.Sprintf("p%d", i), tc) {
+					break
+				}
+				continue
+			}
 			tc := lib.GenTravGraph(rng)
 			sg := &lib.SelGen{R: rng, Cids: tc.AllCids(), Keys: tc.AllKeys(), MaxDepth: 1 + rng.Intn(5), BadPct: 2, BareEdgePct: 3}
 			tc.Sel = sg.Top()
